@@ -1,7 +1,7 @@
 """C13 - equality means equal logical content."""
-from .. import config, corpus
+from .. import config, corpus, gen
 from ..core import Ctx, finish
-from ..rules_cmp import CmpTU, rule_fastpath, rule_lengths, rule_fast_lengths, rule_derived, rule_irreflexive
+from ..rules_cmp import CmpTU, rule_fastpath, rule_lengths, rule_fast_lengths, rule_derived, rule_irreflexive, rule_support
 from ._common import ASSUME, TRUSTED
 from ._tables import check_tables
 
@@ -25,6 +25,7 @@ def rule(tu, rec, pairs="all"):
     rec.count("ms_rule_derived", int(1000 * (time.time() - t0)))
     t0 = time.time()
     rule_irreflexive(cx, rec, "K3refl")
+    rule_support(cx, rec, "K4")
     rec.count("ms_rule_irreflexive", int(1000 * (time.time() - t0)))
 
 
@@ -40,7 +41,7 @@ def run(tier, seed, only=None):
     ctx = Ctx("C13", tier, seed)
     cfgs = configs(tier, seed)
     check_tables(ctx, ("K2",), "K2")
-    corpus.run(ctx, "cv.props.c13", "rule", cfgs, extra={"gen": "gen_cmp_tu", "ruleargs": {"pairs": "quick" if tier == "quick" else "all"}})
+    corpus.run(ctx, "cv.props.c13", "rule", cfgs, flags=("-fno-exceptions",) + gen.ELEM_FLAGS, extra={"gen": "gen_cmp_tu", "ruleargs": {"pairs": "quick" if tier == "quick" else "all"}})
     ctx.floor("configurations", len(cfgs), 40)
     ctx.floor("obligations", ctx.obligations, 600)
     ctx.floor("memcmp ranges matched to field runs", ctx.counters.get("memcmp_range_matched", 0), 40)
